@@ -118,6 +118,24 @@ def run (c : Case) : CaseOut := Id.run do
           let want := (all.filterMap fun r => directSpec whereTrue items r).map fun r => "chan" :: renderBatch [r]
           if !isSublist implObs want then spec := "fail:channel-reordered-or-invented-results"
       | _, _ => obs := obs ++ [[["bad-op"]]]
+    | "tpath" :: n :: rest =>
+      -- the lookup of a `path` op on the same value held in typed Go containers (harness side): same answer
+      match n.toNat? with
+      | none => obs := obs ++ [[["bad-op"]]]
+      | some k =>
+        match parseComps k rest [] with
+        | some (f :: r, vt) =>
+          match parseValue vt with
+          | some (data, []) =>
+            let m := renderLookup (getNestedField data (renderPath f r))
+            obs := obs ++ [[m]]
+            tags := addTag tags "path-typed-containers"
+            let okWF := compWF f && r.all compWF
+            if spec == "ok" && okWF then
+              let want := match walkComps data (f :: r) with | some v => "found" :: renderValue v | none => ["missing"]
+              if implObs != [want] then spec := "fail:fieldpath-lookup-in-typed-containers-differs-from-structural-walk"
+          | _ => obs := obs ++ [[["bad-value"]]]
+        | _ => obs := obs ++ [[["bad-path"]]]
     | "path" :: n :: rest =>
       match n.toNat? with
       | none => obs := obs ++ [[["bad-op"]]]
